@@ -1,12 +1,120 @@
 /-
-  Props.C13 — the theorems that decide property C13 (see DESIGN.md §7).
+  Props.C13 — compiled expressions and parsers are history-independent;
+  one-shot = compiled (DESIGN.md §7, C13).  Statements are about the API state
+  machine `Api.step` (Jmes/Api.lean), in which a Go `Parser` object keeps its
+  three fields between calls, a compiled expression keeps its AST, and
+  documents are shared values.
 -/
 import Props.Tables
+import Jmes.Api
 namespace Jmes.Props
-open Jmes
+open Jmes Jmes.Api
 
 theorem C13_generated_table_ok : TableOK Generated.table = true := generated_table_ok
 theorem C13_generated_sigs_ok : SigsOK Generated.functionTable Spec.functionTable = true := generated_sigs_ok
 theorem C13_generated_lex_ok : LexTablesOK Model.lexTables Spec.lexTables = true := generated_lex_ok
+
+variable {N : Type} [NumOps N]
+
+/-- A Parser that has been used before — whatever its `expression`, `tokens`
+    and `index` fields hold, e.g. after a failed parse — returns on every
+    expression what a freshly created Parser returns. -/
+theorem C13_parser_reuse (cfg : Config) (p : ParserObj) (expr : Bytes) :
+    ((p.parse cfg expr).2 : Res (Node N)) = (({} : ParserObj).parse cfg expr).2 := by
+  unfold ParserObj.parse
+  cases Lexer.tokenize cfg.lex expr with
+  | ok toks =>
+    cases (Parser.parseExpression cfg.tbl (Parser.fuelFor toks.length) cfg.tbl.top ⟨[], toks⟩ : Res (Node N × Parser.PState)) with
+    | ok r =>
+      obtain ⟨e, st⟩ := r
+      cases st.cur with
+      | ok ty => by_cases hty : ty ≠ .eof <;> simp [hty]
+      | err e => rfl
+      | panic s => rfl
+    | err e => rfl
+    | panic s => rfl
+  | err e => rfl
+  | panic s => rfl
+
+/-- The one-shot `Search` is `Compile` followed by the compiled expression's `Search`. -/
+theorem C13_oneshot_is_compile_then_search (cfg : Config) (expr : Bytes) (doc : Val N) :
+    search cfg expr doc = (match (compile cfg expr : Res (Node N)) with
+      | .ok ast => searchCompiled cfg ast doc
+      | .err e => .err e
+      | .panic s => .panic s) := rfl
+
+theorem lookup_setKey_ne {α} (k k' : Nat) (v : α) (l : List (Nat × α)) (h : k' ≠ k) :
+    (setKey k v l).lookup k' = l.lookup k' := by
+  have hb : (k' == k) = false := by simp [h]
+  induction l with
+  | nil => simp [setKey, List.lookup, hb]
+  | cons kv rest ih =>
+    obtain ⟨a, c⟩ := kv
+    simp only [setKey]
+    split
+    · rename_i hk; subst hk; simp [List.lookup, hb]
+    · simp only [List.lookup, ih]
+
+theorem lookup_delKey_ne {α} (k k' : Nat) (l : List (Nat × α)) (h : k' ≠ k) :
+    (delKey k l).lookup k' = l.lookup k' := by
+  have hb : (k' == k) = false := by simp [h]
+  induction l with
+  | nil => rfl
+  | cons kv rest ih =>
+    obtain ⟨a, c⟩ := kv
+    simp only [delKey]
+    split
+    · rename_i hk; subst hk; simp [List.lookup, hb]
+    · simp only [List.lookup, ih]
+
+/-- An operation that is not `compile h` / `doc d` leaves handle `h` and document `d` as they are. -/
+theorem step_frame (cfg : Config) (s : State N) (op : Op N) (h d : Nat)
+    (hc : ∀ e, op ≠ .compile h e) (hd : ∀ v, op ≠ .doc d v) :
+    (step cfg s op).1.handles.lookup h = s.handles.lookup h ∧ (step cfg s op).1.docs.lookup d = s.docs.lookup d := by
+  cases op with
+  | doc id v =>
+    have : d ≠ id := fun e => hd v (by rw [e])
+    exact ⟨rfl, lookup_setKey_ne id d v s.docs this⟩
+  | compile h' expr =>
+    have : h ≠ h' := fun e => hc expr (by rw [e])
+    simp only [step]
+    cases (compile cfg expr : Res (Node N)) with
+    | ok ast => exact ⟨lookup_setKey_ne h' h ast s.handles this, rfl⟩
+    | err e => exact ⟨lookup_delKey_ne h' h s.handles this, rfl⟩
+    | panic p => exact ⟨rfl, rfl⟩
+  | searchC h' d' => simp only [step]; split <;> exact ⟨rfl, rfl⟩
+  | search e d' => simp only [step]; split <;> exact ⟨rfl, rfl⟩
+  | parse k e => exact ⟨rfl, rfl⟩
+
+theorem searchC_congr (cfg : Config) (s1 s2 : State N) (h d : Nat)
+    (hh : s1.handles.lookup h = s2.handles.lookup h) (hd : s1.docs.lookup d = s2.docs.lookup d) :
+    (step cfg s1 (.searchC h d)).2 = (step cfg s2 (.searchC h d)).2 := by
+  simp only [step, hh, hd]
+  split <;> rfl
+
+/-- History independence: after ANY sequence of operations that does not
+    recompile handle `h` or replace document `d` — searches of other documents,
+    failing searches, repetitions, one-shot searches, parser uses — searching
+    `d` with `h` answers exactly what it answered before the sequence. -/
+theorem C13_history_independent (cfg : Config) (s : State N) (ops : List (Op N)) (h d : Nat)
+    (hops : ∀ op ∈ ops, (∀ e, op ≠ .compile h e) ∧ (∀ v, op ≠ .doc d v)) :
+    (step cfg (run cfg s ops).1 (.searchC h d)).2 = (step cfg s (.searchC h d)).2 := by
+  induction ops generalizing s with
+  | nil => rfl
+  | cons op ops ih =>
+    have h1 := hops op (by simp)
+    have hf := step_frame cfg s op h d h1.1 h1.2
+    have := ih (step cfg s op).1 (fun o ho => hops o (by simp [ho]))
+    simp only [run]
+    rw [this]
+    exact searchC_congr cfg _ _ h d hf.1 hf.2
+
+/-- A compiled expression's answer is a function of its AST and the document
+    alone, and equals the one-shot answer for the expression it was compiled from. -/
+theorem C13_compiled_equals_oneshot (cfg : Config) (expr : Bytes) (ast : Node N) (doc : Val N)
+    (hc : (compile cfg expr : Res (Node N)) = .ok ast) :
+    searchCompiled cfg ast doc = search cfg expr doc := by
+  simp only [search, hc]
+  rfl
 
 end Jmes.Props
